@@ -57,8 +57,18 @@ def parse_contract(kind):
         self, it = args[0], args[1]
         ex.assumptions_used.add(f"callee contract {kind.upper()}Simfile._parse: (properties, charts) := documented rules over the parameters, or the parser's error / ValueError")
         ex.ghost.setdefault("parse_calls", []).append((kind, it.text, it.ignore, it.taken))
-        if it.file is not None:
-            MSD.check_decodable(ex, it.file)
+        if it.file is not None and MSD._decide_decodable(ex, it.file):
+            # the parser was handed a file that does not decode: it reads in chunks, so whatever the decodable prefix holds is
+            # interpreted first - the UnicodeDecodeError may be pre-empted by the errors of that prefix
+            outs = ["undecodable", "stray-text-in-the-decodable-prefix"] + (["short-NOTES-in-the-decodable-prefix"] if kind == "sm" else [])
+            j = ex.choose([(o, z3.BoolVal(True)) for o in outs])
+            if j == 0:
+                ex.raise_(UnicodeDecodeError, "codec can't decode byte", tag="undecodable")
+            if j == 1:
+                if not ex.branch(it.ignore, "lenient"):
+                    ex.raise_(msdparser.MSDParserError, "stray text", tag="garbage-stray")
+                ex.raise_(UnicodeDecodeError, "codec can't decode byte", tag="undecodable")
+            ex.raise_(ValueError, "expected at least 6 chart components", tag="garbage-short")
         ps = it.params()
         ex.assume(z3.Implies(it.ignore, z3.Not(MSD.msd_error(it.text, it.ignore))))
         alts = [("ok", z3.And(z3.Not(MSD.msd_error(it.text, it.ignore)), z3.Not(SHORT(ps)) if kind == "sm" else z3.BoolVal(True))),
@@ -369,6 +379,24 @@ def witness_search(tier, seed):
             if r.get("reproduced"):
                 r["entry"] = [fk, en, nm]
                 return r
+    # a file with CR LF line breaks: the filename entry points and a file object the caller opened read the same simfile
+    import tempfile, shutil, os, simfile
+    d = tempfile.mkdtemp(prefix="pyvc-c03-")
+    try:
+        for nm, text in (("crlf.sm", "#TITLE:a;\r\n#BGCHANGES:1=x\r\n,2=y;\r\n#NOTES:dance-single:d:Easy:1:0,0,0,0,0:\r\n0000\r\n0000\r\n;\r\n"),
+                         ("crlf.ssc", "#VERSION:0.83;\r\n#BGCHANGES:1=x\r\n,2=y;\r\n#NOTEDATA:;\r\n#CREDIT:two\r\nlines;\r\n#NOTES:0000\r\n0000\r\n;\r\n")):
+            p = os.path.join(d, nm)
+            with open(p, "wb") as fh:
+                fh.write(text.encode("utf-8"))
+            with io.open(p, encoding="utf-8") as fh:
+                ref = simfile.load(fh)
+            for en, got in (("open", simfile.open(p)), ("open_with_detected_encoding", simfile.open_with_detected_encoding(p)[0])):
+                if type(got) is not type(ref) or list(got.items()) != list(ref.items()) or [list(c.items()) for c in got.charts] != [list(c.items()) for c in ref.charts]:
+                    diff = [k for k in ref if got.get(k) != ref.get(k)]
+                    return dict(reproduced=True, input=dict(file=nm, bytes=text), entry=[en],
+                                detail=f"simfile.{en}(filename) differs from simfile.load(open(filename)) on a CR LF file (keys {diff}, e.g. {got.get(diff[0])!r} vs {ref.get(diff[0])!r})" if diff else "charts differ")
+    finally:
+        shutil.rmtree(d, ignore_errors=True)
     return None
 
 from pyvc.xcheck import MsdTextProbe, StringAxiomProbe   # noqa: E402
